@@ -105,6 +105,8 @@ def _map(f, dtype=None):
         x = norm(x)
         if isinstance(x, SeriesVal):
             return SeriesVal(g(interp, x.arr), x.name)
+        if isinstance(x, A.Masked):
+            return A.unop(f, x, dtype=dtype)
         if isinstance(x, (A.Arr, Ref, list, tuple)):
             return A.unop(f, _arr(x, interp), dtype=dtype)
         if isinstance(x, A.Masked):
@@ -699,10 +701,11 @@ class Lib:
         if kind == "arr":
             return self.arr_method(interp, recv, meth, args, kwargs)
         if kind == "masked":
+            axis = kwargs.get("axis", args[0] if args else None)
             if meth == "sum":
-                return A.reduce_sum(recv, kwargs.get("axis", args[0] if args else None))
+                return A.reduce_sum(recv, axis)
             if meth == "mean":
-                return A.reduce_mean(recv)
+                return A.reduce_mean(recv, axis)
         if kind == "scalar":
             if meth == "conj":
                 return _conj(recv)
@@ -758,8 +761,17 @@ class Lib:
         if meth == "dot":
             return A.dot(a, _arr(args[0], interp))
         if meth == "any":
-            r = A.reduce_sum(A.astype(a, "bool") if a.dtype != "bool" else a, axis)
-            return A.binop(">", r, 0) if isinstance(r, A.Arr) else sv.cmp(">", r, 0)
+            ab = A.astype(a, "bool") if a.dtype != "bool" else a
+            tot = A.reduce_sum(ab, axis)
+            if isinstance(tot, A.Arr):
+                return A.binop(">", tot, 0)
+            res = sv.cmp(">", tot, 0)
+            if axis is None and isinstance(res, SV) and not all(A.dim_conc(d) for d in a.shape):
+                # sound instance of "a sum of 0/1 terms is at least any one of them" at the first element:
+                # (every dim >= 1 and a[0,..,0] is true)  =>  count > 0
+                first = ab.get(tuple(0 for _ in a.shape))
+                cur().assume(sv.implies(sv.and_(first, *[sv.cmp(">=", d, 1) for d in a.shape]), res))
+            return res
         if meth == "all":
             nb = A.unop(sv.not_, A.astype(a, "bool") if a.dtype != "bool" else a, dtype="bool")
             r = A.reduce_sum(nb, axis)
